@@ -532,6 +532,43 @@ func ruleSplitLoopDrains(c *eng.Ctx) {
 			hdr, rem = ph.Block(), ph
 		}
 	})
+	// or the remaining text is a string field of a local state struct whose length the loop header tests
+	var stBase ssa.Value
+	stField := -1
+	fieldLoad := func(v ssa.Value, base ssa.Value, field int) bool {
+		u, ok := v.(*ssa.UnOp)
+		if !ok || u.Op != token.MUL {
+			return false
+		}
+		fa, ok := u.X.(*ssa.FieldAddr)
+		return ok && fa.X == base && fa.Field == field
+	}
+	if hdr == nil {
+		for _, b := range fn.Blocks {
+			iff, ok := lastIf(b)
+			if !ok || !eng.InLoop(b) || stBase != nil {
+				continue
+			}
+			for w := range eng.Slice(iff.Cond, nil) {
+				call, ok := w.(*ssa.Call)
+				if !ok || eng.CalleeName(call) != "builtin:len" {
+					continue
+				}
+				u, ok := call.Call.Args[0].(*ssa.UnOp)
+				if !ok || u.Op != token.MUL {
+					continue
+				}
+				if bt, ok := u.Type().Underlying().(*types.Basic); !ok || bt.Info()&types.IsString == 0 {
+					continue
+				}
+				if fa, ok := u.X.(*ssa.FieldAddr); ok {
+					if _, isAl := fa.X.(*ssa.Alloc); isAl {
+						hdr, stBase, stField = b, fa.X, fa.Field
+					}
+				}
+			}
+		}
+	}
 	if hdr == nil {
 		c.Undec(R, "rag.(*SizeCalculator).SplitToSize#loop", fn.Pos(), "no loop over a remaining string found")
 		return
@@ -544,28 +581,73 @@ func ruleSplitLoopDrains(c *eng.Ctx) {
 		}
 	}
 	inLoop[hdr] = true
-	isRem := func(v ssa.Value) bool {
+	isRemOf := func(v ssa.Value, base ssa.Value) bool {
 		for w := range eng.Slice(v, nil) {
-			if w == ssa.Value(rem) {
+			if rem != nil && w == ssa.Value(rem) {
+				return true
+			}
+			if rem == nil && fieldLoad(w, base, stField) {
 				return true
 			}
 		}
 		return false
 	}
+	isRem := func(v ssa.Value) bool { return isRemOf(v, stBase) }
 	n := 0
-	appendsRest := func(blk *ssa.BasicBlock) bool {
+	appendsRestOf := func(blk *ssa.BasicBlock, base ssa.Value) bool {
 		for _, in := range blk.Instrs {
 			if call, ok := in.(*ssa.Call); ok {
 				if bi, isB := call.Call.Value.(*ssa.Builtin); isB && bi.Name() == "append" && len(call.Call.Args) == 2 {
-					for w := range eng.Slice(call.Call.Args[1], nil) {
-						if w == ssa.Value(rem) {
-							return true
-						}
+					if isRemOf(call.Call.Args[1], base) {
+						return true
 					}
 				}
 			}
 		}
 		return false
+	}
+	appendsRest := func(blk *ssa.BasicBlock) bool { return appendsRestOf(blk, stBase) }
+	// stepStops: the exit is taken because a step method of the state struct returned false, and that
+	// method returns false only after appending what remains
+	stepStops := func(f eng.Fact) bool {
+		if rem != nil {
+			return false
+		}
+		cond, want := f.Cond, f.Pos
+		if u, ok := cond.(*ssa.UnOp); ok && u.Op == token.NOT {
+			cond, want = u.X, !want
+		}
+		call, ok := cond.(*ssa.Call)
+		if !ok || want {
+			return false
+		}
+		g := call.Call.StaticCallee()
+		if g == nil || len(g.Blocks) == 0 || len(g.Params) == 0 || len(call.Call.Args) == 0 || call.Call.Args[0] != stBase {
+			return false
+		}
+		base := ssa.Value(g.Params[0])
+		nf := 0
+		for _, r := range eng.Returns(g) {
+			rv := eng.ReturnValues(r)
+			if len(rv) != 1 {
+				return false
+			}
+			if k, ok := rv[0].(*ssa.Const); ok && k.Value != nil && k.Value.String() == "true" {
+				continue
+			}
+			nf++
+			okR := false
+			for d := r.Block(); d != nil; d = d.Idom() {
+				if appendsRestOf(d, base) {
+					okR = true
+					break
+				}
+			}
+			if !okR {
+				return false
+			}
+		}
+		return nf > 0
 	}
 	var loopBlocks []*ssa.BasicBlock
 	for _, b := range fn.Blocks { // block order: stable keys
@@ -587,6 +669,9 @@ func ruleSplitLoopDrains(c *eng.Ctx) {
 			// (a) the exit is taken because the remaining text is empty
 			drained := false
 			if f, ok := eng.EdgeFact(eng.Edge{From: b, Succ: si}); ok {
+				if stepStops(f) {
+					drained = true
+				}
 				if _, x, y, ok := f.Cmp(); ok {
 					for _, side := range []ssa.Value{x, y} {
 						if call, isCall := side.(*ssa.Call); isCall {
@@ -641,9 +726,15 @@ func ruleHardLimitGuard(c *eng.Ctx) {
 		return
 	}
 	var search *ssa.Call
-	for _, ci := range eng.CallsNamed(fn, false, "rag.(*SizeCalculator).FindSplitPointAt") {
-		if call, ok := ci.(*ssa.Call); ok {
-			search = call
+	hosts := []*ssa.Function{fn}
+	if lp := findSplitLoop(fn); lp != nil {
+		hosts = lp.funcs()
+	}
+	for _, h := range hosts {
+		for _, ci := range eng.CallsNamed(h, false, "rag.(*SizeCalculator).FindSplitPointAt") {
+			if call, ok := ci.(*ssa.Call); ok && search == nil {
+				search, fn = call, h
+			}
 		}
 	}
 	if search == nil {
